@@ -84,10 +84,18 @@ def check_C05(report, tier, seed):
     import suites_client as SC
     SC.suite_client_inbound(report, tier, seed, "C05")
 def check_C06(report, tier, seed): engine_check("C06", report, tier, seed)
-def check_C07(report, tier, seed): engine_check("C07", report, tier, seed)
+def check_C07(report, tier, seed):
+    import suites_engine as S
+    engine_check("C07", report, tier, seed)
+    S.exhaustive(report, "C07", 3 if tier == "quick" else 4)
 def check_C09(report, tier, seed): engine_check("C09", report, tier, seed)
 def check_C10(report, tier, seed): engine_check("C10", report, tier, seed)
-def check_C11(report, tier, seed): engine_check("C11", report, tier, seed, adversarial=True)
+def check_C11(report, tier, seed):
+    import suites_engine as S
+    engine_check("C11", report, tier, seed, adversarial=True)
+    # every ordering of a small alphabet of user, network and timer events (incl. data before open, acks for nothing,
+    # garbage, reset anywhere): same responses from model and implementation, and never a panic
+    S.exhaustive(report, "C11", 3 if tier == "quick" else 4)
 def check_C14(report, tier, seed): engine_check("C14", report, tier, seed, snap_after_svc=True)
 def check_C15(report, tier, seed): engine_check("C15", report, tier, seed)
 def check_C18(report, tier, seed): engine_check("C18", report, tier, seed)
